@@ -3,13 +3,18 @@ C02 — attenuation can only restrict, and is never silently lost.
 
 Generic theorems (every `Crypto B`; [lawful] = for every `LawfulCrypto B`) about `add`, `dedup`,
 `verify` (Token/Macaroon.lean) and `validate`/`prohibits` (Caveat/Prohibits.lean).  Proofs are in
-Lemmas/Legit.lean.  The bundle variant (`bundle_attenuate_monotone`) is with the bundle model.
-Non-vacuity: examples over the symbolic instance `B = Term`, checked by the kernel.
-Tie: family `attenuate`.
+Lemmas/Legit.lean.  `Bundle.Attenuate` is covered with the bundle model: Props/C13
+(`attenuate_all_or_nothing`, `attenuate_verified_set`, `attenuated_3p_blocks_until_reverified`,
+`third_party_caveat_clears_nothing`, `attenuate_writes_through`).
+Non-vacuity: examples over the symbolic instance `B = Term` and, for the byte-level forms, over the
+concrete instance `B = Bytes`, checked by the kernel.
+Tie: families `attenuate`, `bundle`.
 -/
 import Macaroon.Lemmas.Legit
 import Macaroon.Props.C03
+import Macaroon.Props.C11
 import Macaroon.Crypto.Symbolic
+import Macaroon.Token.Concrete
 
 namespace Macaroon.Props.C02
 open Macaroon Macaroon.Crypto Macaroon.Lemmas
@@ -92,20 +97,60 @@ theorem added_caveat_is_returned (k : B) (m m' : Mac B) (c : Cav B) (dms : List 
   · exact Or.inr hdup
   · exact Or.inl (verify_returns_kept k _ dms tr cs hv c (by simp) (by simp [kept, h3, hb]))
 
-/-- `added_caveat_is_enforced`: where equal encodings mean equal caveats (`hinj`: true of the
-symbolic instance, `Symbolic.sameEnc_iff`; of the byte encoding on well-formed caveats,
-`encCav_injective`), the added caveat is in every verification result of the new token, hence every
-request it prohibits is denied by the resulting token, whatever else clears -/
+/-- `added_caveat_is_enforced`: where equal encodings mean equal caveats AMONG THE CAVEATS OF THE TOKEN
+(`hinj`, asked only of the caveats the token carries: true of the symbolic instance,
+`Symbolic.sameEnc_iff`; of the byte encoding when token and argument are well formed,
+`added_caveat_is_enforced_bytes`), the added caveat is in every verification result of the new
+token, hence every request it prohibits is denied by the resulting token, whatever else clears -/
 theorem added_caveat_is_enforced (k : B) (m m' : Mac B) (c : Cav B) (dms : List (Mac B)) (tr : Bytes → List B)
     (cs : List (Cav B)) (h : add m [.plain c] = (m', none)) (h3 : c.is3P = false) (hb : c.isBind = false)
-    (hinj : ∀ x, sameEnc x c = true → x = c)
+    (hinj : ∀ x ∈ m.cavs, sameEnc x c = true → x = c)
     (hv : verify k m' dms tr = .ok cs) :
     c ∈ cs ∧ (c.isAttestation = false → ∀ r, prohibits c r ≠ [] → ∀ rs, r ∈ rs → validate cs rs ≠ []) := by
   have hmem : c ∈ cs := by
     rcases added_caveat_is_returned k m m' c dms tr cs h h3 hb hv with h1 | ⟨rfl, x, hx, hs⟩
     · exact h1
-    · rw [hinj x hs] at hx
-      exact verify_returns_kept k _ dms tr cs hv c hx (by simp [kept, h3, hb])
+    · have hxc := hinj x hx hs
+      subst hxc
+      exact verify_returns_kept k _ dms tr cs hv x hx (by simp [kept, h3, hb])
+  exact ⟨hmem, fun ha r hp rs hr => C03.single_prohibition_denies cs rs c r hmem hr ha hp⟩
+
+/-- `added_caveat_is_enforced` for the byte-level model (real msgpack, real HMAC): the token's caveats
+and the argument are well formed (`WFCav`: what every decoded token satisfies — C11
+`reencode_fixed_point_mac` — and what the Go types can hold: resource sets are maps, i.e. sorted
+duplicate-free association lists here).  On such values the canonical encoding is injective
+(C11 `encode_injective`), so "already present" means present, and the added caveat is enforced.
+Without well-formedness `sameEnc` identifies association lists that differ as lists
+(`sameEnc_not_injective_on_raw_lists` below), which is why injectivity is asked of the token's caveats only. -/
+theorem added_caveat_is_enforced_bytes (k : Bytes) (m m' : Mac Bytes) (c : Cav Bytes) (dms : List (Mac Bytes))
+    (tr : Bytes → List Bytes) (cs : List (Cav Bytes)) (h : add m [.plain c] = (m', none))
+    (h3 : c.is3P = false) (hb : c.isBind = false)
+    (hwm : ∀ x ∈ m.cavs, WFCav x = true) (hwc : WFCav c = true)
+    (hv : verify k m' dms tr = .ok cs) :
+    c ∈ cs ∧ (c.isAttestation = false → ∀ r, prohibits c r ≠ [] → ∀ rs, r ∈ rs → validate cs rs ≠ []) := by
+  apply added_caveat_is_enforced k m m' c dms tr cs h h3 hb _ hv
+  intro x hx hs
+  have he : encCav x = encCav c := by
+    simp only [Crypto.sameEnc, Bool.and_eq_true, beq_iff_eq] at hs
+    exact hs.2
+  exact C11.encode_injective.1 x c (hwm x hx) hwc he
+
+/-- never silently lost along the chain either: the added caveat is in every verification result of
+every token attenuated further from the resulting one, and every request it prohibits stays denied -/
+theorem added_caveat_enforced_in_descendants (k : B) (m m' m'' : Mac B) (c : Cav B) (dms : List (Mac B))
+    (tr : Bytes → List B) (cs : List (Cav B)) (h : add m [.plain c] = (m', none))
+    (h3 : c.is3P = false) (hb : c.isBind = false)
+    (hinj : ∀ x ∈ m.cavs, sameEnc x c = true → x = c)
+    (hA : Attenuated m' m'') (hv : verify k m'' dms tr = .ok cs) :
+    c ∈ cs ∧ (c.isAttestation = false → ∀ r, prohibits c r ≠ [] → ∀ rs, r ∈ rs → validate cs rs ≠ []) := by
+  have hin' : c ∈ m'.cavs := by
+    rcases add_one_plain m m' c h with ⟨rfl, x, hx, hs⟩ | ⟨_, t, _, rfl⟩
+    · have hxc := hinj x hx hs
+      subst hxc; exact hx
+    · simp
+  obtain ⟨_, _, ys, hc, _⟩ := attenuated_shape m' m'' hA
+  have hin'' : c ∈ m''.cavs := by rw [hc]; exact List.mem_append_left _ hin'
+  have hmem : c ∈ cs := verify_returns_kept k _ dms tr cs hv c hin'' (by simp [kept, h3, hb])
   exact ⟨hmem, fun ha r hp rs hr => C03.single_prohibition_denies cs rs c r hmem hr ha hp⟩
 
 /-- a third-party caveat anywhere in a token makes the token demand a discharge for its ticket -/
@@ -127,14 +172,15 @@ theorem added_3p_demands_discharge (k : B) (m m' : Mac B) (loc : Bytes) (ticket 
   · rw [hfresh x hx] at hs; cases hs
   · exact ⟨rfl, Lemmas.tp_demands_discharge k _ dms tr cs hv loc (sealKey m.tail nonce rn) ticket (by simp)⟩
 
-/-- … and where equal encodings mean equal caveats, unconditionally -/
+/-- … and where equal encodings mean equal caveats among the caveats of the token, unconditionally -/
 theorem added_3p_demands_discharge_inj (k : B) (m m' : Mac B) (loc : Bytes) (ticket rn nonce : B)
     (dms : List (Mac B)) (tr : Bytes → List B) (cs : List (Cav B))
     (h : add m [.new3p loc ticket rn nonce] = (m', none))
-    (hinj : ∀ x, sameEnc x (.tp loc Crypto.empty ticket) = true → x = .tp loc Crypto.empty ticket)
+    (hinj : ∀ x ∈ m.cavs, sameEnc x (.tp loc Crypto.empty ticket) = true → x = .tp loc Crypto.empty ticket)
     (hv : verify k m' dms tr = .ok cs) : ∃ d ∈ dms, kidEq d.nonce.kid ticket = true := by
   rcases add_one_3p m m' loc ticket rn nonce h with ⟨rfl, x, hx, hs⟩ | ⟨t, rfl⟩
-  · rw [hinj x hs] at hx
+  · have hxc := hinj x hx hs
+    rw [hxc] at hx
     exact Lemmas.tp_demands_discharge k _ dms tr cs hv loc _ ticket hx
   · exact Lemmas.tp_demands_discharge k _ dms tr cs hv loc (sealKey m.tail nonce rn) ticket (by simp)
 
@@ -262,14 +308,14 @@ example : p2.cavs.length = 4 := by rfl
 -- enforcement
 example := added_caveat_is_enforced (atom 0) p1 _ (.action Action.read) [dis] (fun _ => []) _
   (by rfl : add p1 [.plain (.action Action.read)] = (_, none)) rfl rfl
-  (fun x hx => (sameEnc_iff x _).mp hx) (by rfl)
+  (fun x _ hx => (sameEnc_iff x _).mp hx) (by rfl)
 example := added_caveat_is_returned (atom 0) p1 _ (.action Action.read) [dis] (fun _ => []) _
   (by rfl : add p1 [.plain (.action Action.read)] = (_, none)) rfl rfl (by rfl)
 example : ∃ d ∈ [dis], kidEq d.nonce.kid tk = true :=
   (added_3p_demands_discharge (atom 0) p0 _ [9] tk (atom 11) (atom 13) [dis] (fun _ => []) _
     (by rfl : add p0 [.new3p [9] tk (atom 11) (atom 13)] = (_, none)) (by decide) (by rfl)).2
 example := added_3p_demands_discharge_inj (atom 0) p0 _ [9] tk (atom 11) (atom 13) [dis] (fun _ => []) _
-  (by rfl : add p0 [.new3p [9] tk (atom 11) (atom 13)] = (_, none)) (fun x hx => (sameEnc_iff x _).mp hx) (by rfl)
+  (by rfl : add p0 [.new3p [9] tk (atom 11) (atom 13)] = (_, none)) (fun x _ hx => (sameEnc_iff x _).mp hx) (by rfl)
 example : verify (atom 0) (add p0 [.new3p [9] tk (atom 11) (atom 13)]).1 [] (fun _ => []) = .error .noDischarge := by rfl
 example := tp_demands_discharge (atom 0) p2 [dis] (fun _ => []) _ (by rfl) [9] (sealKey p1mid (atom 13) (atom 11)) tk (by decide)
 -- monotonicity: same discharges (unbound; bound to the parent), re-bound discharges
@@ -336,6 +382,23 @@ example := attenuation_monotone_legit (atom 0) p1 p2 _ p1_legit p2_legit rfl (by
   [disBoundTo p1] [disBoundTo p2] (fun _ => []) _ _ good1 good2 ⟨[], by rfl⟩
 example := attenuation_only_restricts (atom 0) p1 p2 p1_legit (.step _ _ .refl (by rfl)) [dis] (fun _ => []) _ []
   (by intro d hd id hid; simp only [List.mem_singleton] at hd; subst hd; cases hid) (by rfl) (by rfl)
+/-- the state after the first of the two caveats of `p1` -/
+def pa : Mac Term := (add p0 [.plain (.apps [(1, Action.all)])]).1
+theorem pa_to_p2 : Attenuated pa p2 := by
+  have h1 : Attenuated pa (add pa [.new3p [9] tk (atom 11) (atom 13)]).1 := .step _ _ .refl (by rfl)
+  have e : (add pa [.new3p [9] tk (atom 11) (atom 13)]).1 = p1 := by rfl
+  rw [e] at h1
+  exact .step _ _ h1 (by rfl)
+example := added_caveat_enforced_in_descendants (atom 0) p0 pa p2 (.apps [(1, Action.all)]) [dis] (fun _ => []) _
+  (by rfl) rfl rfl (fun x _ hx => (sameEnc_iff x _).mp hx) pa_to_p2 (by rfl)
+/-- why injectivity is asked of well-formed values only: at `B = Bytes` the canonical encoding sorts
+and de-duplicates resource-set entries, so association lists that differ as lists (and that no Go
+map can tell apart) have equal encodings -/
+theorem sameEnc_not_injective_on_raw_lists :
+    sameEnc (Cav.apps [(2, 1), (1, 1)] : Cav Bytes) (Cav.apps [(1, 1), (2, 1)]) = true ∧
+    (Cav.apps [(2, 1), (1, 1)] : Cav Bytes) ≠ Cav.apps [(1, 1), (2, 1)] ∧
+    WFCav (Cav.apps [(2, 1), (1, 1)] : Cav Bytes) = false ∧ WFCav (Cav.apps [(1, 1), (2, 1)] : Cav Bytes) = true := by
+  decide
 example := validate_mono ([.action Action.read] : List (Cav Term)) [.action Action.read, .isUser 1] [] (by decide) (by rfl)
 
 end examples
@@ -350,6 +413,10 @@ end Macaroon.Props.C02
 #print axioms Macaroon.Props.C02.near_duplicate_kept
 #print axioms Macaroon.Props.C02.added_caveat_is_returned
 #print axioms Macaroon.Props.C02.added_caveat_is_enforced
+#print axioms Macaroon.Props.C02.added_caveat_is_enforced_bytes
+#print axioms Macaroon.Props.C02.added_caveat_enforced_in_descendants
+#print axioms Macaroon.Props.C02.sameEnc_not_injective_on_raw_lists
+#print axioms Macaroon.Props.C02.pa_to_p2
 #print axioms Macaroon.Props.C02.tp_demands_discharge
 #print axioms Macaroon.Props.C02.added_3p_demands_discharge
 #print axioms Macaroon.Props.C02.added_3p_demands_discharge_inj
